@@ -137,12 +137,15 @@ def scenarios(ctx):
                                         rebuild=1, connect=1, connack=1)))
     out.append(Scn('k2-traffic', profile='pub', mode='async',
                    init=(('connect', 0, True, 2, 4), ('connack', 0, 0, False)), pub_qos=(0, 1), waits=(1.0,), closing=False,
-                   budgets=dict(tick=6 if q else 8, wait=3, pingresp=2 if q else 3, pub=2, ack=1, disconnect=1)))
+                   budgets=dict(tick=6 if q else 8, wait=3, pingresp=2 if q else 3, pub=2, ack=1, disconnect=1, appping=1)))
     KA2 = (('connect', 0, True, 2, 4), ('connack', 0, 0, False), ('connect', 1, True, 2, 4), ('connack', 1, 0, False))
     out.append(Scn('two-brokers', profile='pub', mode='async', naddr=2, init=KA2, closing=False,
                    reconnects=[(True, 2, 4)],
                    budgets=dict(tick=5 if q else 8),
                    addr_budgets=[dict(tick=5 if q else 8, pingresp=1, lose=1), dict(tick=5 if q else 8, pingresp=2 if q else 3)]))
+    out.append(Scn('k2-disconnect-in-callback', profile='pubsub', mode='async', connects=[(True, 2, 4)], reconnects=[(True, 2, 4)],
+                   reenter=('onMqttConnectionMade>disconnect',), closing=False,
+                   budgets=dict(connect=1, connack=1, tick=5, pingresp=1, lose=1)))
     out.append(Scn('k0', profile='pubsub', mode='async', init=(('connect', 0, True, 0, 4), ('connack', 0, 0, False)),
                    reconnects=[(True, 2, 4)], pub_qos=(1,), closing=False,
                    budgets=dict(tick=6, pingresp=2, pub=1, ack=1, lose=1, rebuild=1, connect=1, connack=1)))
